@@ -156,7 +156,13 @@ def wrap(e) -> str:
 
 
 def seqarg(e) -> str:
-    """positions the real code pulls lazily: always materialised (parenthesised / variable / literal)"""
+    """sequence-argument positions (range of `for`, sequence arguments of the HOFs): the real code
+    pulls them lazily.  Parenthesised (materialised) by default; a `!` expression marked lazy
+    (`('smap', a, b, True)`) is printed bare, so that the lazy generator is consumed while the
+    functions are being called (the model is eager: equal results are part of the tie since the
+    repair `… iterate their sequence argument on a copy of the context`)."""
+    if e[0] == 'smap' and len(e) > 3 and e[3]:
+        return xp(e)
     return xp(e) if e[0] in ('lit', 'dlit', 'elit', 'var', 'emp', 'par') else f'({xp(e)})'
 
 
@@ -177,7 +183,7 @@ def proto(e) -> str:
         elif k in ('tt', 'ff', 'emp', 'dot', 'pos', 'last'):
             out.append(k)
         elif k in ('add', 'sub', 'mul', 'gt', 'eq', 'cat', 'smap', 'forEach', 'filter', 'sortK'):
-            out.append(k); go(e[1]); go(e[2])
+            out.append(k); go(e[1]); go(e[2])      # (a 4th element of smap is a printing hint)
         elif k in ('ite', 'foldL', 'foldR', 'pairs'):
             out.append(k); go(e[1]); go(e[2]); go(e[3])
         elif k in ('for', 'let'):
@@ -615,6 +621,15 @@ class Gen:
         sc2['dot'] = None
         return ('fn', 0, ps, self.gen(ret, sc2, d - 1))
 
+    def seqexpr(self, t, sc, d):
+        """a sequence argument: sometimes a bare (lazily consumed) `a ! b`"""
+        r = self.rng
+        if is_seq(t) and d > 1 and r.random() < 0.25:
+            self.tags.add('lazy-seqarg')
+            st = r.choice([IS, IS, t])
+            return ('smap', self.gen(st, sc, d - 1), self.gen(r.choice([t, t[1]]), dict(sc, dot=st[1]), d - 1), True)
+        return self.gen(t, sc, d)
+
     def gen_seq(self, t, sc, d):
         r = self.rng
         el = t[1]
@@ -624,7 +639,7 @@ class Gen:
         if k < 0.24:
             st = r.choice([IS, IS, S(F([I], I))]) if d > 2 else IS
             body_t = r.choice([t, el])
-            rng_e = self.gen(st, sc, d - 1)
+            rng_e = self.seqexpr(st, sc, d - 1)
             x = self.fresh(sc, avoid=sorted(names(rng_e, set())))
             return ('for', x, rng_e, self.gen(body_t, self.bind(sc, x, st[1]), d - 1))
         if k < 0.34:
@@ -633,14 +648,14 @@ class Gen:
         if k < 0.44:
             st = r.choice([IS, IS, S(F([I], I))]) if d > 2 else IS
             f = self.gen(F([st[1]], r.choice([t, el])), sc, d - 1)
-            return ('forEach', self.gen(st, sc, d - 1), self.hofwrap(f))
+            return ('forEach', self.seqexpr(st, sc, d - 1), self.hofwrap(f))
         if k < 0.52:
             pt = B
             if self.noise and r.random() < self.noise:
                 self.tags.add('noise:predicate')      # `a single boolean value required`
                 pt = r.choice([I, IS])
             f = self.gen(F([el], pt), sc, d - 1)
-            return ('filter', self.gen(t, sc, d - 1), self.hofwrap(f))
+            return ('filter', self.seqexpr(t, sc, d - 1), self.hofwrap(f))
         if k < 0.62:
             st = r.choice([IS, IS, S(F([I], I))]) if d > 2 else IS
             left = r.random() < 0.5
@@ -649,11 +664,11 @@ class Gen:
                 self.tags.add('noise:hof-arity')      # `function arity must be 2`
                 ft = F([t], t)
             f = self.gen(ft, sc, d - 1)
-            return ('foldL' if left else 'foldR', self.gen(st, sc, d - 1), self.gen(t, sc, d - 1), self.hofwrap(f))
+            return ('foldL' if left else 'foldR', self.seqexpr(st, sc, d - 1), self.gen(t, sc, d - 1), self.hofwrap(f))
         if k < 0.70:
             s1 = r.choice([IS, IS, S(F([I], I))]) if d > 2 else IS
             f = self.gen(F([s1[1], I], r.choice([t, el])), sc, d - 1)
-            return ('pairs', self.gen(s1, sc, d - 1), self.gen(IS, sc, d - 1), self.hofwrap(f))
+            return ('pairs', self.seqexpr(s1, sc, d - 1), self.seqexpr(IS, sc, d - 1), self.hofwrap(f))
         if k < 0.78 and el in (I, N, A):
             if el != I and r.random() < 0.6:
                 # a key that tells equal values of different type apart (and optionally the value)
@@ -665,10 +680,19 @@ class Gen:
                 elif u < 0.5:
                     key = ('cat', ('ite', ('inst', 'boolean', ('var', p)), ('lit', 1), ('var', p)), key)
                 kf = ('fn', 0, [p], key)
+            elif r.random() < 0.25:
+                # boolean key components (false < true), alone or followed by a numeric component
+                p = self.fresh(sc)
+                scp = self.bind(dict(sc, dot=None, infn=True), p, el)
+                key = self.gen(B, scp, max(d - 2, 1))
+                if r.random() < 0.5:
+                    key = ('cat', key, self.gen(I, scp, 1))
+                kf = ('fn', 0, [p], key)
+                self.tags.add('sort-boolkey')
             else:
                 kf = self.gen(F([el], r.choice([I, I, IS])), sc, d - 1)
             self.tags.add('sort' if el == I else 'sort-mixed')
-            return ('sortK', self.gen(t, sc, d - 1), kf)
+            return ('sortK', self.seqexpr(t, sc, d - 1), kf)
         if k < 0.84:
             return ('call', ('named', r.choice(['reverse', 'tail', 'head'])), [self.gen(t, sc, d - 1)])
         if k < 0.92:
@@ -1058,12 +1082,12 @@ def detect_cfg2(run: Run) -> str:
     return share + leak
 
 
-FLAG_TAGS = [('stale', 'F16'), ('scope', 'F05'), ('arity', 'F16e'), ('focus', 'F16f'), ('misc', 'F16m')]
+FLAG_TAGS = [('stale', 'F16'), ('scope', 'F05'), ('arity', 'F16e'), ('focus', 'F16f')]
 
 
 def parse_answer(ans: str):
     parts = dict(p.split('=', 1) for p in ans.split(' ') if '=' in p)
-    return parts.get('model'), parts.get('flags', '00000'), parts.get('spec')
+    return parts.get('model'), parts.get('flags', '0000'), parts.get('spec')
 
 
 TREES: dict[str, tuple] = {}
@@ -1179,6 +1203,24 @@ CORPUS = [
     ('for', 0, ('par', ('smap', seq(L(1), L(2)), ('spart', 'insert-before', [None, L(1), ('dot',)]))), ('call', V(0), [L(7)])),
     ('smap', ('par', ('for', 0, seq(L(1), L(2)), ('spart', 'insert-before', [None, L(1), V(0)]))), ('call', ('dot',), [L(7)])),
     ('for', 0, ('par', ('smap', seq(L(1), L(2), L(3)), ('spart', 'remove', [None, ('pos',)]))), ('call', V(0), [seq(L(10), L(20), L(30))])),
+    # the HOFs evaluate their function argument: a function call is not the function
+    ('forEach', seq(L(1), L(-2)), ('call', ('named', 'head'), [('named', 'abs')])),
+    ('apply', ('call', ('named', 'head'), [('named', 'abs')]), [L(-3)]),
+    # ... and call it in their own focus, also while the sequence argument is consumed lazily
+    ('forEach', ('smap', seq(L(5), L(6)), ('add', ('dot',), L(1)), True), ('spart', 'insert-before', [None, L(1), ('dot',)])),
+    ('foldL', ('smap', seq(L(5), L(6)), ('add', ('dot',), L(1)), True), ('emp',), ('spart', 'insert-before', [None, ('pos',), None])),
+    # arity checked at partial application and by for-each / filter / sort before the first call
+    ('call', fn([0, 1], V(0)), [None]),
+    ('forEach', ('emp',), fn([0, 1], V(0))),
+    ('sortK', L(3), fn([0, 1], V(0))),
+    # fn:apply: a type error inside the function is not an arity error; partially applied exists / empty
+    ('apply', fn([0], ('add', V(0), ('tt',))), [L(1)]),
+    ('filter', seq(L(1), L(2)), ('call', ('named', 'empty'), [None])),
+    ('call', ('spart', 'exists', [None]), [('emp',)]),
+    # boolean sort keys: false before true; a boolean against a number is a type error
+    ('sortK', seq(L(1), L(2), L(3)), fn([0], ('eq', V(0), L(1)))),
+    ('sortK', seq(L(1), L(2), L(3)), fn([0], ('cat', ('gt', V(0), L(1)), V(0)))),
+    ('sortK', seq(L(1), L(2)), fn([0], ('ite', ('eq', V(0), L(1)), ('tt',), L(0)))),
     # F16h: predicate result as a one-item sequence
     ('filter', seq(L(1), L(2), L(3)), fn([0], ('let', 1, V(0), ('gt', V(1), L(1))))),
     # arity
